@@ -45,4 +45,21 @@ theorem code_smf_Is (m : Bytes) (c : Int) : ∃ b, msgIs .smf m c = some b ∧ s
   unfold smf.Message.Is
   simp [h2, bind, Except.bind, pure, Except.pure, code_Type_Is]
 
+/-- `smf.Message.IsOneOf(checkers...)` -/
+theorem code_smf_IsOneOf (m : Bytes) (cs : List Int) :
+    ∃ b, isOneOf .smf m cs = some b ∧ smf.Message.IsOneOf m cs = .ok b := by
+  unfold smf.Message.IsOneOf
+  induction cs with
+  | nil => exact ⟨false, rfl, rfl⟩
+  | cons c r ih =>
+    obtain ⟨b, hb, hr⟩ := ih
+    obtain ⟨x, hm, h2⟩ := code_smf_Is m c
+    simp only [List.forIn_cons] at hr ⊢
+    cases x
+    · refine ⟨b, by simp [isOneOf, hm, hb], ?_⟩
+      simp only [h2, bind, Except.bind, pure, Except.pure] at hr ⊢
+      simpa using hr
+    · refine ⟨true, by simp [isOneOf, hm], ?_⟩
+      simp [h2, bind, Except.bind, pure, Except.pure]
+
 end Midi.C08
